@@ -666,7 +666,7 @@ def state(cqm):
 OPS = (['addvar'] * 3 + ['objm'] * 2 + ['objt'] + ['conm'] * 4 + ['conc'] * 2 + ['cont'] * 2 + ['discm', 'discc', 'discv', 'discv']
        + ['rmvar'] * 3 + ['fix'] * 3 + ['fixmany', 'fixcopy', 'fixcopy'] + ['flip'] * 2 + ['cvt'] * 2 + ['s2b'] + ['rmcon'] * 2
        + ['relv'] * 2 + ['relc'] + ['setb'] + ['vaddl', 'vsetl', 'vaddq', 'vaddq', 'vrmi', 'vrmv', 'voff', 'vmark', 'vweight']
-       + ['deepcopy'] + ['cpapi'] * 3 + ['addvars'] * 2 + ['clear'] + ['bad'] * 3)
+       + ['deepcopy'] + ['cpapi'] * 3 + ['addvars'] * 2 + ['clear'] + ['ssl'] * 2 + ['bad'] * 3)
 
 
 def classify(k, line, ref, args):
@@ -676,7 +676,7 @@ def classify(k, line, ref, args):
             'discv': 'CQM.add_discrete', 'rmvar': 'CQM.remove_variable', 'fix': 'CQM.fix_variable', 'fixmany': 'CQM.fix_variables',
             'fixcopy': 'CQM.fix_variables', 'flip': 'CQM.flip_variable', 'cvt': 'CQM.change_vartype', 's2b': 'CQM.spin_to_binary',
             'rmcon': 'CQM.remove_constraint', 'relv': 'CQM.relabel_variables', 'relc': 'CQM.relabel_constraints',
-            'setb': 'CQM.set_bound', 'deepcopy': 'CQM.__deepcopy__', 'cpapi': 'CQM copy-returning call', 'addvars': 'CQM.add_variables', 'clear': 'CQM.clear'}.get(k, 'CQM expression view')
+            'setb': 'CQM.set_bound', 'deepcopy': 'CQM.__deepcopy__', 'cpapi': 'CQM copy-returning call', 'addvars': 'CQM.add_variables', 'clear': 'CQM.clear', 'ssl': 'CQM.substitute_self_loops'}.get(k, 'CQM expression view')
     return site
 
 
@@ -1089,6 +1089,61 @@ def one_history(ctx, r, nops, out):
                 ln = f'addvar {vt} {lab(v)} {"-" if lb is None else rat(lb)} {"-" if ub is None else rat(ub)}'
                 last = j == len(done) - 1
                 out.append(dict(line=ln, expect=(f'{outcome} {state(cqm)}' if last else None), k='addvar', hist=tuple(hist)))
+            continue
+        elif k == 'ssl':
+            # substitute_self_loops(): every self-loop b*u*u of a non-BINARY/SPIN variable becomes b*u*new with a new variable of the
+            # same type and bounds, plus one constraint `u - new == 0` labelled `new` per substituted variable.  The new labels are
+            # chosen by the call (random); the specification is applied with the returned mapping, which must name exactly the
+            # variables that had a self-loop, in order of first encounter (objective, then constraints), with fresh labels.
+            before = state(cqm)
+            code = '_mp = cqm.substitute_self_loops()'
+            hist.append(code)
+            ns = dict(cqm=cqm)
+            try:
+                exec(code, ns)
+            except Exception as e:  # noqa
+                ctx.fail('property', 'CQM.substitute_self_loops', f'unexpected {type(e).__name__}', f'`{code}` raised {type(e).__name__}: {e}',
+                         repro=repro_unexpected(hist), detail=dict(history=list(hist)))
+                return
+            mp = dict(ns['_mp'])
+            ref2 = ref.copy()
+            want_keys = []; plines = []; okspec = all(n not in ref.vars and n not in ref.cons for n in mp.values()) and len(set(mp.values())) == len(mp)
+            for which, p in [(None, ref2.obj)] + [(l, c.p) for l, c in ref2.cons.items()]:
+                wl = '-' if which is None else lab(which)
+                for u in list(p.order):
+                    if ref2.vars[u][0] in ('SPIN', 'BINARY') or frozenset((u,)) not in p.quad:
+                        continue
+                    bias = p.quad[frozenset((u,))]
+                    if u not in want_keys:
+                        want_keys.append(u)
+                    new = mp.get(u)
+                    if new is None:
+                        okspec = False
+                        continue
+                    vt, lo, hi = ref2.vars[u]
+                    if new not in ref2.vars:
+                        ref2.add_variable(vt, new, lo, hi)
+                        plines.append(f'addvar {vt} {lab(new)} {rat(float(lo))} {rat(float(hi))}')
+                    p.add_quadratic(u, new, bias, vt); plines.append(f'vaddq {wl} {lab(u)} {lab(new)} {rat(float(bias))}')
+                    p.remove_interaction(u, u); plines.append(f'vrmi {wl} {lab(u)} {lab(u)}')
+            for v, new in mp.items():
+                if v in ref2.vars and new in ref2.vars and new not in ref2.cons:
+                    ts = [(v, 1), (new, -1)]
+                    ref2.add_constraint_terms(ts, '==', 0, new, None, 'linear')
+                    plines.append(f'cont {lab(new)} == 0 - 0 {terms_arg(ts)}')
+                else:
+                    okspec = False
+            ctx.tick('ssl' + (': nothing to substitute' if not want_keys else f': {min(len(want_keys), 3)} variable(s)'))
+            ctx.case((code, before), nontrivial=bool(want_keys))
+            if not okspec or list(mp) != want_keys or state(cqm, canon=True) != ref2.show(canon=True):
+                ctx.fail('property', 'CQM.substitute_self_loops', 'state' if okspec and list(mp) == want_keys else 'returned mapping',
+                         f'`{code}` returned {mp!r}; the variables with a self-loop are {want_keys!r}; the model is ' +
+                         ('not ' if state(cqm, canon=True) != ref2.show(canon=True) else '') + 'what the substitution gives on a list of polynomials',
+                         repro=None, detail=dict(history=list(hist), impl=state(cqm, canon=True), spec=ref2.show(canon=True), mapping=repr(mp)))
+                return
+            ref = ref2
+            for j, ln in enumerate(plines):
+                out.append(dict(line=ln, expect=(f'ok {state(cqm)}' if j == len(plines) - 1 else None), k='ssl', hist=tuple(hist)))
             continue
         elif k == 'bad':
             # malformed calls whose effect on raise is examined separately
